@@ -2,7 +2,7 @@
 table."""
 import ast
 
-from sa.helpers import (validated, unlicensed, mkflow, spec, code, one, calls, bind_call, param_env,
+from sa.helpers import (guard_is, validated, unlicensed, mkflow, spec, code, one, calls, bind_call, param_env,
                         fmt, atom_of, unparse, walk_no_nested)
 from sa.index import AnalysisError, ClassInfo
 from sa.algebra import RF, Slice, dotted
@@ -71,17 +71,29 @@ def _run(ix, R):
                     why.append('pressure read from %s' % fmt(fl, base))
             else:
                 unit = spec(fl, "self._spec_dict['p'].attrs['units']")
-                conv = [e for e in fl.of('assign') if e.name == 'p_conversion']
-                okc = len(conv) >= 1 and all('to(' in unparse(e.node.value) and 'u.Pa' in unparse(e.node.value)
-                                             and 'pressure_units' in unparse(e.node.value) for e in conv)
-                pu = [e for e in fl.of('assign') if e.name == 'pressure_units']
-                okc = okc and len(pu) == 1 and fl.tab.equal(pu[0].value, unit)
-                if not okc:
-                    why.append('conversion factor is not Unit(declared unit).to(Pa)')
-                if 'p_conversion' not in unparse(s.node.value) or not unparse(s.node.value).startswith(pexpr.split('[')[0]):
-                    why.append('pressure = %s' % unparse(s.node.value))
-                if not isinstance(s.node.value, ast.BinOp) or not isinstance(s.node.value.op, ast.Mult):
-                    why.append('pressure is not value * factor')
+                base = spec(fl, pexpr)
+                # value = (file pressures) x (a factor that every assignment computes as Unit(declared unit).to(Pa))
+                ratio = s.value / base
+                ra = atom_of(fl, ratio)
+                if ra is None or ra.head != 'phi' and ra.head not in ('mcall', 'call'):
+                    why.append('pressure = %s, not the file pressures times one conversion factor' % fmt(fl, s.value))
+                else:
+                    if ra.head == 'phi':
+                        vals = [e.value for e in fl.of('assign') if e.name == ra.args[0]]
+                    else:
+                        vals = [ratio]
+                    if not vals:
+                        why.append('no conversion factor')
+                    for v in vals:
+                        va = atom_of(fl, v)
+                        okv = va is not None and va.head == 'mcall' and va.extra[0] == 'fn:to' and len(va.args) == 2 and \
+                            fmt(fl, va.args[1]).endswith('Pa')
+                        if okv:
+                            ua = atom_of(fl, va.args[0])
+                            okv = ua is not None and ua.head == 'call' and ua.extra[0].endswith('Unit') and ua.args and \
+                                fl.tab.equal(ua.args[0], unit)
+                        if not okv:
+                            why.append('conversion factor is %s, not Unit(declared unit).to(Pa)' % fmt(fl, v))
             R.check('1.pressure', 'SIB', site, stmt, not why, key='; '.join(why), detail='; '.join(why), loc=f.loc(s.node))
     # exotransmit specifics
     site = OD + 'exotransmit.py::ExoTransmitOpacity._load_exo_transmit'
@@ -168,7 +180,7 @@ else:
             sts = [e for e in fl.of('store')]
             why = []
             for e in sts:
-                if not any(g.early and not g.positive and 'in self.%s' % dct in g.text() for g in e.guards):
+                if not any(guard_is(fl, g, spec(fl, 'op.moleculeName in self.%s' % dct, pe), False) for g in e.guards):
                     why.append('%s can overwrite a loaded molecule' % unparse(e.node))
                 ta = atom_of(fl, e.target)
                 if ta is None or not fl.tab.equal(ta.args[1], spec(fl, 'op.moleculeName', pe)) or \
@@ -215,9 +227,10 @@ else:
     with R.guard('5.sanitize', 'ALG', site, 'sanitize'):
         f = ix.func(site)
         r = unparse(f.body()[-1])
+        from sa.pattern import find as _find
+        okp = _find(f.node, ["return ''.join([''.join(V_s) for V_s in re.findall('([A-Z][a-z]?)([0-9]*)', %s)])" % f.params()[0]])[0] is not None
         R.check('5.sanitize', 'ALG', site, 'sanitised name keeps element symbols and counts only (isotope prefixes, suffixes dropped)',
-                r == "return ''.join([''.join(s) for s in re.findall('([A-Z][a-z]?)([0-9]*)', molecule)])",
-                key=r, detail=r, loc=f.loc())
+                okp, key=r, detail=r, loc=f.loc())
 
 
 def loader_keys(ix):
